@@ -146,6 +146,34 @@ def _run(ctx):
             r1.site("loop at %s iterates collect(%s over PAIRS.range(None, None))%s" % (where, names2, via))
             r1.site("no take / skip / filter between the scan and the loop (%d helper(s) crossed)" % len(helpers))
 
+    # the walk may be skipped only when the denom was not registered before: every condition outside the loop whose other
+    # edge reaches a success exit without the walk must be exactly `ALLOW[denom]` existed (a rejecting guard is no skip)
+    lb_ = body.reachable_from(walk["some_edge"][1], cut_edges=(walk["none_edge"],))
+    ok_bs = [x[0] for x in common.ok_exit_blocks(P, h)]
+    want_gate = "mload(%s)[%s]" % (ALLOW, DENOM)
+    gates = 0
+    for c in common.control_conditions(P, h, walk["next_bb"]):
+        sw = c["sw"]
+        if sw in lb_:
+            continue
+        skip = False
+        for t in set(body.succs[sw]):
+            if body.blocks[t]["cleanup"]:
+                continue
+            reach = body.reachable_from(t)
+            if walk["next_bb"] not in reach and any(b in reach for b in ok_bs):
+                skip = True
+        if not skip:
+            continue
+        strs = sorted(lemmas.cond_strings(ctx, [c]))
+        okc = strs in (["is_some(%s) is [True]" % want_gate], ["is_none(%s) is [False]" % want_gate], ["discr(%s) in ['Some']" % want_gate])
+        if okc:
+            gates += 1
+            r1.site("the walk is skipped only when the denom had no allow-list entry before this call (%s)" % strs[0])
+        else:
+            r1.fail("C17.R1:skip-gate:%s" % "|".join(strs)[:160], h.path, common.span_of_block_term(h, sw),
+                    "the walk over the registered pairs is skipped when not {%s}: a denom registered before (with any decimals, 0 included) must have every pair rewritten" % "; ".join(strs)[:300])
+
     # ---- R2 --------------------------------------------------------------------------------------------
     # page reader = function applying `take` to a PAIRS scan
     readers = []
@@ -320,6 +348,22 @@ def _run(ctx):
                         idx = "i"
                         have_eq = True
                         continue
+            # the same pattern forms on `asset_infos[i]` with the range index of a `for i in 0..2` loop
+            if sym is not None and not sym.get("enumerated"):
+                if cd[0] == "discr" and c["allowed"] == ["NativeToken"] and sym_index(cd[1], sym):
+                    if idx not in (None, "i"):
+                        extra.append("mixed indices")
+                    idx = "i"
+                    have_native = True
+                    continue
+                if cd[0] == "cmp" and cd[1] in ("eq", "ne") and len(cd[2]) == 2 and c["allowed"] == [cd[1] == "eq"]:
+                    rs_ = ["|".join(sorted(ctx.roots(x))) for x in cd[2]]
+                    if DENOM in rs_:
+                        other_ = cd[2][1 - rs_.index(DENOM)]
+                        if rs_[1 - rs_.index(DENOM)] == "%s.asset_infos[*]~NativeToken.denom" % item and sym_index(other_, sym):
+                            idx = "i"
+                            have_eq = True
+                            continue
             m_d = re.match(r"^%s\.asset_infos\[(\d)\]$" % re.escape(item), "|".join(sorted(ctx.roots(cd[1])))) if cd[0] == "discr" else None
             if m_d and c["allowed"] == ["NativeToken"]:
                 if idx is not None and idx != int(m_d.group(1)):
@@ -491,21 +535,31 @@ def _run(ctx):
             r5.fail("C17.R5:decimals-origin", ph.path, where, "saved asset_decimals ⊢ %s, expected the stored value or the message's array" % sorted(dec))
         else:
             r5.site("saved record = stored record with asset_decimals ⊢ {stored, message array}")
+        # the function whose body decides the assignment: the handler, or the closure of `PAIR_INFO.update(storage, |old| ..)`
+        sf, sbody, sstored = ph, pbody, stored
+        t_sb = pbody.blocks[sb]["term"]
+        cal_ = common.callee_of(t_sb)[0] if t_sb["k"] == "call" else None
+        if cal_ and re.search(r"Item::update$", generic_path(cal_)):
+            raw_ = P.val_call(ph, pbody, sb)
+            if len(raw_[4]) == 3 and raw_[4][2][0] == "agg" and raw_[4][2][1] == "closure" and P.fn(raw_[4][2][2]) is not None:
+                sf = P.fn(raw_[4][2][2])
+                sbody = sf.body
+                sstored = P_(sf, 1)
         # where is the assignment of the new array, and under which conditions
         assigns = []
-        for b, blk in enumerate(pbody.blocks):
+        for b, blk in enumerate(sbody.blocks):
             if blk["cleanup"]:
                 continue
             for i, st in enumerate(blk["stmts"]):
                 if st["k"] == "assign" and st["place"]["p"] and st["place"]["p"][-1].get("name") == "asset_decimals":
-                    v = P.val_rvalue(ph, pbody, (b, i), st["rv"])
+                    v = P.val_rvalue(sf, sbody, (b, i), st["rv"])
                     if set(ctx.roots(v)) == {P_(ph, parr)}:
                         assigns.append(b)
-        lps2 = [l for l in common.loops(P, ph) if l["is_loop"]]
+        lps2 = [l for l in common.loops(P, sf) if l["is_loop"]]
         anys = []
         if len(assigns) == 1 and not lps2:
             # `if asset_infos.iter().any(|a| matches!(a, Native{denom: d} if d == &denom)) { decimals = msg }`
-            for c in common.control_conditions(P, ph, assigns[0]):
+            for c in common.control_conditions(P, sf, assigns[0]):
                 cd = c["cond"]
                 if cd[0] == "cmp" and cd[1] == "any" and c["allowed"] == [True]:
                     anys.append(cd)
@@ -515,7 +569,7 @@ def _run(ctx):
             srcr = {x for x in ctx.roots(src) if not x.startswith("M:")}
             clo = cd[2][1]
             okp = False
-            if clo[0] == "agg" and clo[1] == "closure" and not ads and kind in ("iter", "iter_mut") and srcr == {"%s.asset_infos" % stored}:
+            if clo[0] == "agg" and clo[1] == "closure" and not ads and kind in ("iter", "iter_mut") and srcr == {"%s.asset_infos" % sstored}:
                 cf = P.fn(clo[2])
                 R2 = ctx.R.with_captures(clo)
                 trues = []
@@ -541,7 +595,7 @@ def _run(ctx):
                 want = {"discr(%s) in ['NativeToken']" % it, "eq(%s) is [True]" % ", ".join(sorted([it + "~NativeToken.denom", P_(ph, pden)]))}
                 okp = not bad and trues == [want]
             if not okp:
-                r5.fail("C17.R5:any-predicate", ph.path, common.span_of_block_term(ph, assigns[0]), "the decimals are applied under an `any(..)` test whose predicate is not exactly {asset is native; its denom == message denom} over the stored assets")
+                r5.fail("C17.R5:any-predicate", ph.path, common.span_of_block_term(sf, assigns[0]), "the decimals are applied under an `any(..)` test whose predicate is not exactly {asset is native; its denom == message denom} over the stored assets")
             else:
                 r5.site("applied exactly when a stored native asset's denom equals the message denom")
                 r5.site("record saved after the test over both assets")
@@ -551,19 +605,19 @@ def _run(ctx):
             l = lps2[0]
             ads, kind, src = common.iter_chain(l["iter"])
             srcr = {x for x in ctx.roots(src) if not x.startswith("M:")}
-            if ads or kind not in ("iter", "iter_mut") or srcr != {"%s.asset_infos" % stored}:
-                r5.fail("C17.R5:loop-shape", ph.path, common.span_of_block_term(ph, l["next_bb"]), "the loop does not visit both stored assets (adaptors %s over %s)" % ([a for a, _ in ads], sorted(srcr)))
-            lb = pbody.reachable_from(l["some_edge"][1], cut_edges=(l["none_edge"],))
-            conds = [c for c in common.control_conditions(P, ph, assigns[0]) if c["sw"] in lb and c["sw"] != l["switch"]]
+            if ads or kind not in ("iter", "iter_mut") or srcr != {"%s.asset_infos" % sstored}:
+                r5.fail("C17.R5:loop-shape", ph.path, common.span_of_block_term(sf, l["next_bb"]), "the loop does not visit both stored assets (adaptors %s over %s)" % ([a for a, _ in ads], sorted(srcr)))
+            lb = sbody.reachable_from(l["some_edge"][1], cut_edges=(l["none_edge"],))
+            conds = [c for c in common.control_conditions(P, sf, assigns[0]) if c["sw"] in lb and c["sw"] != l["switch"]]
             cs = lemmas.cond_strings(ctx, conds)
             it = l["item_root"]
             want = {"discr(%s) in ['NativeToken']" % it, "eq(%s) is [True]" % ", ".join(sorted([it + "~NativeToken.denom", P_(ph, pden)]))}
             if cs != want:
-                r5.fail("C17.R5:condition", ph.path, common.span_of_block_term(ph, assigns[0]),
+                r5.fail("C17.R5:condition", ph.path, common.span_of_block_term(sf, assigns[0]),
                         "the new decimals are applied under {%s}; expected exactly {asset is native; its denom == message denom}" % "; ".join(sorted(cs))[:300])
             else:
                 r5.site("applied exactly when a stored native asset's denom equals the message denom")
-            if not pbody.edge_dominates(l["none_edge"], sb):
+            if sf is ph and not sbody.edge_dominates(l["none_edge"], sb):
                 r5.fail("C17.R5:save-order", ph.path, where, "the record is saved before both assets were examined")
             else:
                 r5.site("record saved after the loop over both assets")
